@@ -354,6 +354,10 @@ class Generator:
             text = re.sub(r"\(\s*(?!pub\b)", "(pub ", text, count=1) if "(" in text else text
         text = self._make_pub(text)
         text = self._apply_type_table(text, rules)
+        if it.kind == "const" and re.search(r":\s*&\s*str\s*=", text):
+            # E2: the elided lifetime of a `const X: &str` is 'static by definition; inside `verus!` it must be written
+            text = re.sub(r":\s*&\s*str\s*=", ": &'static str =", text, count=1)
+            rules.append("E2 const %s: elided lifetime written out (&'static str)" % it.name)
         if not any(k.split("::")[-1] == "Default" for k in kept):
             text = re.sub(r"#\[default\]\s*", "", text)
         for c in cont:
